@@ -265,6 +265,30 @@ def check(ctx):
                    'move put into the PV is an element of the node\'s own move list (begin[k]) or the guarded table move',
                    site=f.loc(call))
     ctx.floor('C05.R4.pv-origin', n_pvc, 4, 'PV helper call sites')
+    # the line appended behind the move is the one the child search wrote: the frame handed to every recursive call of the
+    # function is the frame whose PV is spliced in, and the destination is the function's own frame
+    from rules.norm import Norm as _Nc
+    n_cf = 0
+    for f, call in p.callers_of('engine::add_new_move_to_pv_list'):
+        pinfo = [q for q in f.params if 'Info' in (q.get('type') or '') or q['name'] == 'info']
+        if not pinfo:
+            raise AnalysisBroken('C05: %s splices a child PV but has no frame parameter' % short(f.name))
+        nc = _Nc(f, keep=tuple(q['name'] for q in pinfo))
+        dest, src = nc.s(kids(call)[1]), nc.s(kids(call)[3])
+        made = [n for n, cfid, nm in f.calls() if nm in ('engine::Position::do_move', 'engine::Position::do_null_move')]
+        rec, same = set(), set()
+        for n, cfid, nm in f.calls():
+            if nm in ('engine::Search::search', 'engine::Search::quiescence_search'):
+                # a call behind a made move searches a child; one on the node's own position is a hand-off (depth 0)
+                child = any(f.cfg.node_dominates(m_, n) for m_ in made)
+                (rec if child else same).add(nc.s(kids(n)[-1]))
+        n_cf += 1
+        ctx.ob('C05.R4.pv-child-frame', short(f.name),
+               dest == pinfo[0]['name'] and sorted(rec) == [src] and src != dest and same <= {dest},
+               'the PV spliced behind a move is read from the frame every child search was given (child calls: %s, same-node calls: %s, '
+               'spliced: %s -> %s)' % (sorted(rec), sorted(same), src, dest),
+               site=f.loc(call))
+    ctx.floor('C05.R4.pv-child-frame', n_cf, 2, 'PV splices')
 
     # every activation of a recursive search function defines its own PV before any return: the parent
     # appends the child's PV (info + 1) after the call, so a path that returns without touching the frame's
@@ -576,12 +600,68 @@ def _from_node_list(p, f, arg, call):
     if arg['k'] == 'ArraySubscriptExpr':
         base = strip_casts(kids(arg)[0])
         if base.get('ref', {}).get('k') in ('Local', 'Parm') and short(base['ref']['n']) in ('begin',):
+            if not _index_in_list(f, arg, base):
+                return False, 'begin[k]: k not shown to lie in [0, end - begin)'
             return True, 'begin[k]'
     if arg['k'] == 'UnaryOperator' and arg.get('op') == '*':
         return True, '*it'
     if r.get('k') == 'Parm':
         return True, 'param'  # helper-to-helper forwarding (checked at the outer call site)
     return False, arg['k']
+
+
+def _index_in_list(f, sub, base):
+    """begin[k]: k is a counter that stays below end - begin of the same list, or 0 where the list is known to be non-empty.
+    The slots from `end` on hold moves of other positions (the per-ply buffers are reused), so an index equal to the count
+    hands the search a move that was never generated here."""
+    from rules.effects import canon
+    idx = strip_casts(kids(sub)[1])
+    bn = short(base['ref']['n'])
+
+    def is_count(e, minus1=False):
+        e = strip_casts(e)
+        r = e.get('ref', {})
+        if r.get('k') == 'Local':
+            d0 = single_def(f, r['id'])
+            if d0 is not None:
+                return is_count(d0, minus1)
+        s = canon(f, e, inline=False).replace(' ', '').replace('static_cast<int>', '')
+        core = r'\(?end-%s\)?' % re.escape(bn)
+        if minus1:
+            return re.fullmatch(r'\(?%s-1\)?' % core, s) is not None
+        return re.fullmatch(core, s) is not None
+
+    cv = const_of(idx)
+    if cv is not None:
+        if cv != 0:
+            return False
+        for cond, truth in guard_facts(f, sub):
+            c = strip_casts(cond)
+            if c['k'] == 'BinaryOperator' and c.get('op') in ('==', '!='):
+                a, b = kids(c)
+                for x, y in ((a, b), (b, a)):
+                    if const_of(strip_casts(y)) == 0 and is_count(x) and (c['op'] == '!=') == truth:
+                        return True
+            if c['k'] == 'BinaryOperator' and c.get('op') in ('>', '<'):
+                a, b = kids(c)
+                x, y = (a, b) if c['op'] == '>' else (b, a)
+                if const_of(strip_casts(y)) == 0 and is_count(x) and truth:
+                    return True
+        return False
+    iid = idx.get('ref', {}).get('id')
+    if iid is None:
+        return False
+    for a in f.ancestors(sub):
+        if a['k'] == 'ForStmt':
+            cf = counting_for(f, a)
+            if cf and cf[0] == iid:
+                ini = for_init_const(a)
+                if ini is None or ini < 0:
+                    return False
+                if cf[2] in ('<', '!='):
+                    return is_count(cf[1])
+                return cf[2] == '<=' and is_count(cf[1], True)
+    return False
 
 
 def _ptr_use(f, n):
